@@ -334,6 +334,22 @@ pub fn generate(args: &Args) -> Vec<String> {
         };
         l.push(format!("num lerp {ty} {a} {b} {}", s.to_bits()));
     }
+    // (3b) equal or nearly equal values of large magnitude (up to the 2^23 bound): the interpolated value
+    // has nowhere to go, so any formula that is not exact at `a == b` shows here
+    for i in 0..n / 3 {
+        let ty = ["i32", "u32", "i64", "u64", "i16", "u16"][i % 6];
+        let (lo, hi) = range(ty);
+        let top: i64 = if ty.ends_with("16") { hi as i64 } else { 1 << 23 };
+        let a = (top - rng.range(0, top / 2)) * if lo < 0 && rng.chance(1, 2) { -1 } else { 1 };
+        let b = (a + rng.range(-3, 3)).clamp((lo as i64).max(-(1 << 23)), (hi as i128).min(1 << 23) as i64);
+        // scalars: decimal fractions and arbitrary f32 bit patterns of [0,1) (1 - t is then inexact in f32)
+        let s = match rng.below(4) {
+            0 => *rng.pick(&[0.1f32, 0.2, 0.252, 0.3, 0.7, 0.9, 0.999, 1.0 / 3.0, 0.6]),
+            1 => *rng.pick(&scalars),
+            _ => f32::from_bits((rng.next() % 0x3F80_0000) as u32),
+        };
+        l.push(format!("num lerp {ty} {a} {b} {}", s.to_bits()));
+    }
     for _ in 0..n / 10 {
         let v: Vec<i64> = (0..6).map(|_| rng.range(-(1 << 23), 1 << 23)).collect();
         let s = (rng.next() >> 40) as f32 / (1u64 << 24) as f32;
